@@ -26,6 +26,10 @@ Fld(tg, n, jn, t) == [tag |-> tg, n |-> n, jn |-> jn, t |-> t]
 TagForms(n, t) == {Fld("none", n, n, t), Fld("dash", n, n, t), Fld("str", n, n, t), Fld("omit", n, n, t),
                    Fld("ren", n, "a", t), Fld("ren", n, "B", t), Fld("ren", n, "x", t)}
 St(fs) == [k |-> "st", f |-> fs]
+RECURSIVE Deep(_, _)
+Deep(n, t) == IF n = 0 THEN t
+              ELSE IF n \in {1, 5} THEN St(<<Fld("none", "A", "A", Deep(n - 1, t)), Fld("omit", "B", "B", [k |-> "int"])>>)
+              ELSE St(<<Fld("none", "A", "A", Deep(n - 1, t))>>)
 EmbA == St(<<Fld("none", "A", "A", [k |-> "i8"]), Fld("none", "B", "B", [k |-> "str"])>>)
 EmbT == St(<<Fld("ren", "A", "A", [k |-> "i8"]), Fld("ren", "B", "b", [k |-> "str"])>>)
 
@@ -39,6 +43,8 @@ Types ==
     [] Fam = "rec" -> {[k |-> "rec", d |-> 2], [k |-> "ptr", e |-> [k |-> "rec", d |-> 2]], [k |-> "slice", e |-> [k |-> "rec", d |-> 1]],
                       [k |-> "map", key |-> "str", e |-> [k |-> "ptr", e |-> [k |-> "rec", d |-> 1]]], St(<<Fld("omit", "A", "A", [k |-> "rec", d |-> 1])>>)}
     [] Fam = "bigst" -> {BigStruct(n) : n \in BigSizes}
+    [] Fam = "deepst" -> {Deep(5, t) : t \in {[k |-> "f64"], [k |-> "str"], [k |-> "iface"], [k |-> "uj"], [k |-> "slice", e |-> [k |-> "int"]], [k |-> "ptr", e |-> [k |-> "i8"]],
+                                               [k |-> "map", key |-> "str", e |-> [k |-> "f64"]]}}
     [] Fam = "mapkeys" -> {[k |-> "map", key |-> kk, e |-> t] : kk \in AllKeyKinds, t \in {[k |-> "int"], [k |-> "str"]}}   \* every key parser, always in the quick tier
     [] Fam = "wrap1" -> WrapK(Leaf, AllKeyKinds)        \* every key kind: each has its own key parser
     [] Fam = "wrap2" -> Wrap(Wrap(LeafR))
